@@ -29,6 +29,7 @@ func runC16(c *Ctx) {
 	c.NotDec = []string{"round-trip equality and canonicity over all values and byte strings (value-quantified; the structural clauses above are necessary conditions)", "equality with the reference implementation's output", "absence of implicit panics (index, nil) on arbitrary input", "reflection-driven type cache behaviour for arbitrary Go types"}
 	c.Floors["T"] = 30
 	c.Floors["G"] = 40
+	c16Round3(c)
 
 	c16Grammar(c)
 	c16Encoders(c)
